@@ -3,6 +3,7 @@ import Driver.DictRt
 import Driver.Codec
 import Driver.Stream
 import Model.Sctp
+import Model.Retry
 import Spec.Split
 /-! Driver.Sctp — the `sctp` correspondence domain (C19, C16 stream clause, C14 over SCTP). -/
 namespace DV.Drv
@@ -179,5 +180,26 @@ def judgeCAnswer (streamsTok : String) (rounds : Nat) (impl : List String) : Jud
     fails := (if bad.isEmpty then [] else ["C16:answer-written-on-a-different-stream"]) ++
              (if implOut = "stalled" then ["C16:concurrent-answers-stall"] else []),
     tags := [s!"canswer streams={streams.length} rounds={rounds}"] }
+
+/-- `sctp wstall wt=.. stall=.. retries=<k> n=<msgs> .. => w:<id>:<times on the wire>:<nil|err> ...`:
+    the transport takes every write in full after a delay, so the outcome script of each
+    `writeRetry` is "everything accepted" (`Model.Retry`): one offered buffer, accepted whole, no
+    error - whatever the Server's WriteTimeout is. A message seen twice, or a failed write whose
+    bytes were delivered, is a C07 verdict. -/
+def judgeWStall (retries n : Nat) (impl : List String) : Judged :=
+  let res := writeRetry [0] retries []
+  let rows := (List.range n).map (fun i =>
+    s!"w:{7000 + i}:{res.accepted.length}:{if res.err.isNone then "nil" else "err"}")
+  let dup := impl.filter (fun t => match t.splitOn ":" with
+    | ["w", _, c, _] => (c.toNat?.getD 0) > 1
+    | _ => false)
+  let lost := impl.filter (fun t => match t.splitOn ":" with
+    | ["w", _, c, e] => c = "0" ∨ (e = "err" ∧ c ≠ "0")
+    | _ => false)
+  { model := " ".intercalate rows,
+    fails := (if dup.isEmpty then [] else ["C07:message-reached-the-transport-more-than-once"]) ++
+             (if lost.isEmpty then [] else ["C07:write-reported-failed-or-lost-on-a-transport-that-took-every-byte"]) ++
+             (if impl = ["stalled"] then ["C07:writers-stall-on-a-slow-multistream-transport"] else []),
+    tags := [s!"wstall retries={retries} n={n}"] }
 
 end DV.Drv
